@@ -279,3 +279,47 @@ func GrowFirstMap(v *Value, n int) bool {
 	}
 	return false
 }
+
+// AddKeysToFirstMap adds entries under the given keys (clones of an existing entry) to the first non-empty map found
+// in v, in the traversal order of GrowFirstMap.
+func AddKeysToFirstMap(v *Value, keys []string) bool {
+	if v == nil {
+		return false
+	}
+	switch v.Kind {
+	case KMap:
+		have := make([]string, 0, len(v.Entries))
+		for k := range v.Entries {
+			have = append(have, k)
+		}
+		sort.Strings(have)
+		if len(have) > 0 {
+			for i, k := range keys {
+				if _, taken := v.Entries[k]; !taken {
+					v.Entries[k] = Clone(v.Entries[have[i%len(have)]])
+				}
+			}
+			return true
+		}
+	case KArray:
+		for _, e := range v.Elems {
+			if AddKeysToFirstMap(e, keys) {
+				return true
+			}
+		}
+	case KRecord:
+		names := make([]string, 0, len(v.Fields))
+		for k := range v.Fields {
+			names = append(names, k)
+		}
+		sort.Strings(names)
+		for _, k := range names {
+			if AddKeysToFirstMap(v.Fields[k], keys) {
+				return true
+			}
+		}
+	case KUnion:
+		return AddKeysToFirstMap(v.Member, keys)
+	}
+	return false
+}
